@@ -657,6 +657,20 @@ theorem dict_accepts_iff (o : Oracle) (entries : List (String × Bool × Schema)
   rw [h]
   simp only [Bool.and_eq_true, acceptsEntries_iff, List.all_eq_true, List.any_eq_true, beq_iff_eq]
 
+/-- one expected key: present and valid, or absent and optional -/
+def entryOk (o : Oracle) (kvs : Dict) (e : String × Bool × Schema) : Bool :=
+  match Dict.lookup kvs e.1 with
+  | some v => Schema.accepts o e.2.2 v
+  | none => e.2.1
+
+theorem dict_accepts_iff' (o : Oracle) (entries : List (String × Bool × Schema)) (kvs : Dict) :
+    Schema.accepts o (.dict entries) (.obj kvs) = true ↔
+      (∀ e ∈ entries, entryOk o kvs e = true) ∧ (∀ kv ∈ kvs, ∃ e ∈ entries, e.1 = kv.1) := by
+  rw [dict_accepts_iff]
+  refine and_congr_left (fun _ => forall_congr' (fun e => imp_congr_right (fun _ => ?_)))
+  unfold entryOk
+  cases Dict.lookup kvs e.1 <;> simp
+
 theorem dict_accepts_leaf (o : Oracle) (entries : List (String × Bool × Schema)) (v : JVal)
     (h : v.isObj = false) : Schema.accepts o (.dict entries) v = false := by
   cases v <;> simp [JVal.isObj] at h <;> rw [Schema.accepts] <;> intro kvs hk <;> cases hk
